@@ -202,6 +202,14 @@ def gen_cases(rng, tier):
         dts = [rng.choice(KR_DTYPES) for _ in range(k)]
         cases.append(Case("khatrirao", {"mats": mats, "reverse": rng.random() < 0.5, "dts": dts,
                                         "lay": [rng.choice(LAYOUTS), "int64"]}, k > 1))
+    # --- the order="C" option of both conversions (last subscript fastest): not what the property states, but the same
+    #     generated functions; keeps the translator and the Np model honest on that branch
+    for _ in range(150 if big else 50):
+        shp = [rng.randint(1, 4) for _ in range(rng.randint(1, 4))]
+        n = math.prod(shp)
+        cases.append(Case("ind2sub", {"shape": shp, "idx": [rng.randrange(-n, n + 1) for _ in range(rng.randint(1, 5))], "order": "C"}, n > 1))
+        cases.append(Case("sub2ind", {"shape": shp, "subs": [[rng.randrange(d + (rng.random() < 0.05)) for d in shp] for _ in range(rng.randint(1, 5))],
+                                      "order": "C"}, n > 1))
     # --- histories: the array RETURNED by one helper is fed into the next (its dtype / memory layout is whatever pyttb
     #     produced: tt_ind2sub returns a transposed view, tt_union_rows a float array when an operand is empty)
     for _ in range(400 if big else 120):
@@ -232,7 +240,7 @@ def gen_cases(rng, tier):
     frac = 0.35 if big else 0.2
     for c in cases:
         if c.op in LAYOUT_OPS and "lay" not in c.args and rng.random() < frac:
-            lay = rng.choice(LAYOUTS[1:])
+            lay = rng.choice(LAYOUTS[1:] + (DIMS_FORMS if c.op == "dimscheck" else ()))
             dt = rng.choice(["int64", "int64", "int32", "int16", "uint8"])
             if dt == "uint8" and _has_negative(c.args):
                 dt = "int32"
@@ -243,8 +251,9 @@ def gen_cases(rng, tier):
 
 
 LAYOUTS = ("C", "F", "strided", "neg", "offset")
+DIMS_FORMS = ("list", "tuple", "scalar", "col", "row")       # other admissible presentations of dims / exclude_dims
 LAYOUT_OPS = ("sub2ind", "ind2sub", "dimscheck", "ismember", "intersect", "setdiff", "union", "khatrirao", "wrapdims",
-              "roundtrip", "chain_rows")
+              "roundtrip", "chain_rows", "prim_unique_rows", "prim_argsort", "prim_setdiff1d", "prim_isin")
 KR_DTYPES = ("f8", "f4", "i8", "i4", "h8", "h4")       # h = half-integers (value / 2) stored as float64 / float32
 
 
@@ -309,13 +318,26 @@ def _run_impl(c, np, track):
         return None if v is None else _present(np, v, (len(v),), lay, track)
     try:
         if c.op == "sub2ind":
-            r = U.tt_sub2ind(tuple(a["shape"]), mat(a["subs"], len(a["shape"])))
+            r = U.tt_sub2ind(tuple(a["shape"]), mat(a["subs"], len(a["shape"])), order=a.get("order", "F"))
             return {"ok": [int(x) for x in np.asarray(r).ravel()]}
         if c.op == "ind2sub":
-            r = U.tt_ind2sub(tuple(a["shape"]), vec(a["idx"]))
+            r = U.tt_ind2sub(tuple(a["shape"]), vec(a["idx"]), order=a.get("order", "F"))
             return {"ok": [[int(x) for x in row] for row in np.asarray(r).reshape((-1, len(a["shape"])))]}
         if c.op == "dimscheck":
-            s, v = U.tt_dimscheck(a["N"], a["M"], vec(a["dims"]), vec(a["excl"]))
+            def dvec(v):       # dims / exclude_dims are "one-d array likes": list, tuple, scalar, row or column matrix too
+                form = (lay or ["C"])[0]
+                if v is None or form in LAYOUTS:
+                    return vec(v)
+                if form == "list":
+                    return list(v)
+                if form == "tuple":
+                    return tuple(v)
+                if form == "scalar" and len(v) == 1:
+                    return np.int64(v[0]) if lay[1] != "int32" else int(v[0])
+                if form == "col":
+                    return _present(np, v, (len(v), 1), ["C", lay[1]], track)
+                return _present(np, v, (1, len(v)), ["F", lay[1]], track)
+            s, v = U.tt_dimscheck(a["N"], a["M"], dvec(a["dims"]), dvec(a["excl"]))
             return {"ok": [[int(x) for x in s], None if v is None else [int(x) for x in v]]}
         if c.op == "ismember":
             m, r = U.tt_ismember_rows(mat(a["a"], a["k"]), mat(a["b"], a["k"]))
@@ -381,14 +403,14 @@ def _run_impl(c, np, track):
             from pyttb.tensor import min_split
             return {"ok": int(min_split(tuple(a["shape"])))}
         if c.op == "prim_unique_rows":
-            u, i = np.unique(np.array(a["m"], dtype=int).reshape((len(a["m"]), a["k"])), axis=0, return_index=True)
+            u, i = np.unique(mat(a["m"], a["k"]), axis=0, return_index=True)
             return {"ok": [[[int(x) for x in r] for r in u], [int(x) for x in i]]}
         if c.op == "prim_argsort":
-            return {"ok": [int(x) for x in np.argsort(np.array(a["v"], dtype=int))]}
+            return {"ok": [int(x) for x in np.argsort(vec(a["v"]))]}
         if c.op == "prim_setdiff1d":
-            return {"ok": [int(x) for x in np.setdiff1d(np.array(a["a"], dtype=int), np.array(a["b"], dtype=int))]}
+            return {"ok": [int(x) for x in np.setdiff1d(vec(a["a"]), vec(a["b"]))]}
         if c.op == "prim_isin":
-            return {"ok": [bool(x) for x in np.isin(np.array(a["a"], dtype=int), np.array(a["b"], dtype=int))]}
+            return {"ok": [bool(x) for x in np.isin(vec(a["a"]), vec(a["b"]))]}
         if c.op == "prim_where1":
             return {"ok": [int(x) for x in np.arange(len(a["mask"]))[np.where(np.array(a["mask"], dtype=bool))]]}
         if c.op == "prim_range_down":
@@ -413,10 +435,10 @@ def coq_check(c, o):
         return "false"      # a helper wrote into its argument / a product that must be integral is not: judged by the oracle
     if c.op == "sub2ind":
         exp = "Err" if "exc" in o else f"(Ok {gzlist(o['ok'])})"
-        return f"res_eqb vec_eqb (tt_sub2ind {gzlist(a['shape'])} {gzmat(a['subs'])} OrdF) {exp}"
+        return f"res_eqb vec_eqb (tt_sub2ind {gzlist(a['shape'])} {gzmat(a['subs'])} Ord{a.get('order', 'F')}) {exp}"
     if c.op == "ind2sub":
         exp = "Err" if "exc" in o else f"(Ok {gzmat(o['ok'])})"
-        return f"res_eqb mat_eqb (tt_ind2sub {gzlist(a['shape'])} {gzlist(a['idx'])} OrdF) {exp}"
+        return f"res_eqb mat_eqb (tt_ind2sub {gzlist(a['shape'])} {gzlist(a['idx'])} Ord{a.get('order', 'F')}) {exp}"
     if c.op == "dimscheck" and a["dims"] is not None and len(set(a["dims"])) != len(a["dims"]) and "ok" in o \
             and o["ok"][1] is not None and a["M"] == len(a["dims"]):
         # repeated modes (ill-formed, see C19): numpy's argsort order among equal keys is unspecified, so only
@@ -521,6 +543,13 @@ def oracle(c, o):
     if o.get("nonint"):
         return (f"Khatri-Rao product of matrices with dtypes {a.get('dts')} is {o['ok']} (scaled by 2 per half-integer "
                 "operand): not the exact product of the entries")
+    if c.op in ("sub2ind", "ind2sub") and a.get("order") == "C":
+        # last subscript fastest = first-subscript-fastest on the reversed shape / reversed subscripts
+        a = dict(a, shape=a["shape"][::-1], order="F")
+        if c.op == "sub2ind":
+            a["subs"] = [r[::-1] for r in a["subs"]]
+        elif "ok" in o:
+            o = {"ok": [r[::-1] for r in o["ok"]]}
     if c.op == "sub2ind":
         shp = a["shape"]
         valid = all(len(r) == len(shp) and all(0 <= x < d for x, d in zip(r, shp)) for r in a["subs"])
@@ -605,7 +634,11 @@ def oracle(c, o):
         if "exc" in o:
             return "rejected"
         if len({tuple(x) for x in A}) != len(A):
-            return None      # repeated rows in the first argument: indices refer to the de-duplicated list (A-41)
+            if c.op == "setdiff":
+                return None  # repeated rows in the first argument: positions in A and in its de-duplicated copy are mixed (A-41)
+            # intersect with repeated rows in A (open finding A-41): judged by the weaker, documented reading "positions in
+            # the de-duplicated first argument"
+            A = [x for n_, x in enumerate(A) if x not in A[:n_]]
         rows = [A[i] for i in o["ok"]] if all(0 <= i < len(A) for i in o["ok"]) else None
         if rows is None:
             return "index outside the first argument"
